@@ -92,6 +92,29 @@ def site_str(F, fid, extra=None):
     return s
 
 
+def run_canary(ctx, mod):
+    """Rules whose expected count on the library is zero carry planted positive examples (witness/canary.cpp, extracted with
+    --roots=/verif/witness).  mod.CANARY = {"check": [rule functions], "expect": [violation-key substrings], "forbid": [substrings]}.
+    A planted construct that is not reported, or an allowed one that is, makes the run analysis-broken."""
+    spec = mod.CANARY
+    u = factsmod.Unit("canary", os.path.join(VERIF, "witness", "canary.cpp"), "none", False, roots=os.path.join(VERIF, "witness"), patterns=False)
+    (uu, path, dt, cached), = factsmod.extract([u])
+    F = factsmod.Facts(path, u)
+    c2 = Ctx(ctx.prop, ctx.tier)
+    c2.unit = "canary"
+    for fn in spec["check"]:
+        fn(c2, F)
+    keys = sorted(c2.violations)
+    missing = [e for e in spec["expect"] if not any(e in k for k in keys)]
+    wrong = [k for k in keys if any(f in k for f in spec.get("forbid", ()))]
+    ctx.units_analysed.append({"unit": "canary (planted positive examples)", "functions": len(F.bodies), "extract_s": round(dt, 2), "cached": cached})
+    ctx.note("canary: %d planted constructs reported by their rules (%s)" % (len(spec["expect"]) - len(missing), ", ".join(spec["expect"])))
+    if missing:
+        raise AnalysisBroken("canary: planted constructs not reported: %s (reported: %s)" % (missing, keys))
+    if wrong:
+        raise AnalysisBroken("canary: allowed construct reported: %s" % wrong)
+
+
 def run_check(prop, tier, unit_plan, module_name, level="other", min_instances=None, extra_cov=None):
     """unit_plan: list of Unit; module: hfsm.rules.<prop>; returns exit code."""
     t0 = time.time()
@@ -119,6 +142,8 @@ def run_check(prop, tier, unit_plan, module_name, level="other", min_instances=N
             mod.check(ctx, F)
             del F
         ctx.unit = None
+        if hasattr(mod, "CANARY"):
+            run_canary(ctx, mod)
         if hasattr(mod, "final"):
             mod.final(ctx)
         mins = dict(getattr(mod, "MIN_INSTANCES", {}))
